@@ -187,7 +187,8 @@ PROPS["C09"] = dict(
           "additionalProperties type, key shortcut (string type or an alias of it, also one listing itself); ~17% of graphs reference an undefined name; roots: single reference, alternative list, object of references; both key-optionality settings. "
           "non-trivial = judged and (the graph has a reference cycle or a missing name) and >=2 types; distinct by the printed spec"),
     assumptions=["a wall-clock budget of 20 s per call is only used to turn a hang into a recorded case; hitting it is reported with the case (never seen on the pinned tree)"],
-    jobs=[job("graphs", "^TestTypeGraphs$", (4, 16), (6000, 200000), (900, 3000))],
+    jobs=[job("graphs", "^TestTypeGraphs$", (4, 16), (6000, 200000), (900, 3000)),
+          job("layered", "^TestLayeredGraphs$", (1, 4), (120, 3000), (900, 3000))],
 )
 PROPS["C16"] = dict(
     pkg="c16", level="exploration",
@@ -322,7 +323,7 @@ _R5 = {
     "C06": "; reads interleaved with 1-5 Len / Check calls on one Document; empty # comments",
     "C07": "; regex classes without printable ASCII and zero-width assertions, blank documents, type shortcuts next to an or of kind names, layered graphs of or types (8-36 layers, 60 s budget); the error value itself (not a wrapped one) must be the library error and its Message() non-empty",
     "C08": "; or rule sets with an empty exclusive interval, a rule foreign to the declared kind, bounds of 2^64; minLength / minItems / precision of 2^64; second check: AddType after the first use (check, ast, example, validate, len) is refused or takes effect",
-    "C09": "; types created with KeysAreOptionalByDefault, or members written as rule sets with a second rule, key-type aliases naming a missing type",
+    "C09": "; layered acyclic graphs of 30-44 levels x 2 types whose number of paths is 2^levels (alternatives, or rules, key shortcuts, optional / required properties, array items; flat or with every type knowing every type): Check, Validate and Example return; types created with KeysAreOptionalByDefault, or members written as rule sets with a second rule, key-type aliases naming a missing type",
     "C11": "; error messages compared; regex example bytes; one Document object validated repeatedly; schemas with regex types; types wired to each other and types known only through other types",
     "C12": "; specs with regex types and with types wired to each other; private schemas add the type objects of the shared one; operations on the shared type objects themselves (Check of a type, Example of a regex type)",
     "C13": "; 22 rewrite kinds now (empty # comments, blank in empty containers, property after array, blank or tab between a bare rule name and its colon, ### block ### inside inline rule objects, notes on lines of their own); document re-spelling also over type graphs",
